@@ -123,6 +123,14 @@ def _label(spec, kind, k):
     return f"{spec['key']}/loop[{spec['ordinal']}]/{kind}[{k}]"
 
 
+def _hints(interp, sp, spec, env):
+    """ghost terms evaluated at the head of the loop body: their only effect is to instantiate
+    the definitions of ghost functions at the current index (ground instantiation)"""
+    import ast as _ast
+    for h in spec.get("hints", []):
+        sp.eval(_ast.parse(h, mode="eval").body, env)
+
+
 def cut_while(interp, st, env, spec):
     ctx = interp.ctx
     sp = interp.sub(True)
@@ -134,6 +142,7 @@ def cut_while(interp, st, env, spec):
         ctx.assume(truthy(sp.eval(inv, env)), f"loop-inv:{spec['key']}[{spec['ordinal']}][{k}]")
     c = interp.eval(st.test, env)
     if interp.truth(c):
+        _hints(interp, sp, spec, env)
         dec0 = None
         if spec.get("decreases") is not None:
             dec0 = ops.as_int(sp.eval(spec["decreases"], env))
@@ -170,6 +179,7 @@ def cut_for(interp, st, env, spec, view):
         ctx.assume(truthy(sp.eval(inv, env)), f"loop-inv:{spec['key']}[{spec['ordinal']}][{k}]")
     if ctx.branch(i < view.length, "for"):
         interp.assign(st.target, view.get(i), env)
+        _hints(interp, sp, spec, env)
         try:
             interp.exec_block(st.body, env)
         except BreakSig:
